@@ -1153,12 +1153,13 @@ def check_c10(run):
 MEM_INVS = ["Disjoint", "InBounds", "AccessorInBlock", "RowsDisjoint", "Aligned", "TrailerRoundTrip", "NoDoubleFree", "Emit"]
 
 
-@check("C14", "model_checking")
-def check_c14(run):
+def memblock_stage(run, pid, only_sanitizer=False):
+    """MemBlock.tla's histories (reset with reuse, move, view) replayed on TbfMemoryBlock under AddressSanitizer.  C14 reports every difference;
+    C15 (only_sanitizer) reports sanitizer findings: use after free, double release, leak, access outside the buffer."""
     q = run.tier == "quick"
     consts = dict(Align=64, Word=8, MaxItems=5 if q else 9, ExtraCounts={8, 9, 64, 65} if q else {8, 9, 16, 17, 63, 64, 65, 128, 129, 1000, 4096, 10000}, MaxOps=3, Shard=0, NbShards=1, EmitJson=True)
-    res = tlc_sharded("MemBlock", consts, MEM_INVS, [], 8, 1, 1500, "C14-memblock")
-    run.add_tlc("C14-memblock", res, note="MemBlock.tla: 10 layouts (1-4 sub-blocks of scalar / vector / multi-row / multi-column kinds, element sizes 1..4096), counts 0..%d + %s, histories reset / reuse-reset / move / byte-copy view" % (consts["MaxItems"], sorted(consts["ExtraCounts"])))
+    res = tlc_sharded("MemBlock", consts, MEM_INVS, [], 8, 1, 1500, pid + "-memblock")
+    run.add_tlc(pid + "-memblock", res, note="MemBlock.tla: 10 layouts (1-4 sub-blocks of scalar / vector / multi-row / multi-column kinds, element sizes 1..4096), counts 0..%d + %s, histories reset / reuse-reset / move / byte-copy view" % (consts["MaxItems"], sorted(consts["ExtraCounts"])))
     if res.violated:
         run.machinery_errors.append("TLC: %s of spec/MemBlock.tla violated (log %s)" % (res.violated, res.logpath))
     OPC = {"reset": 0, "move": 1, "view": 2}
@@ -1186,12 +1187,19 @@ def check_c14(run):
         checks += summary.get("checks", 0)
         seen = set()
         for kind, key, text in m:
-            if (kind, key) in seen:
+            if (kind, key) in seen or only_sanitizer:
                 continue
             seen.add((kind, key))
             run.violation(kind + ":" + key, text, run.write_replay(kind + "-" + key, {"kind": "mem", "key": key, "text": text}))
-    run.add_harness("C14-memblock", {"scenarios": len(recs), "checks": checks}, 0)
+    run.add_harness(pid + "-memblock", {"scenarios": len(recs), "checks": checks}, 0)
     run.coverage["traces_validated_against_impl"] += len(recs)
+    return recs, res
+
+
+@check("C14", "model_checking")
+def check_c14(run):
+    q = run.tier == "quick"
+    recs, res = memblock_stage(run, "C14")
     run.coverage["evaluations"] += len(recs)
     run.coverage["distinct_nontrivial"] += sum(1 for x in recs if " 0 " in x)
     if recs:
@@ -1394,6 +1402,8 @@ def check_c15(run):
     for name, consts in omp_configs("quick")[:: (2 if small else 1)]:
         pairs, mism, _ = omp_campaign(run, "C15-omp-" + name, consts, "quick", variant="asan", graphs=0, limit=80 if small else 500)
         report_mismatches(run, "C15", "C15-omp-" + name, pairs, [(k, re.sub(r"-(immediate|deferred|tlc)-.*$", "", key), "%s [%s]" % (t, key)) for k, key, t in mism], ["Sanitizer", "Crash"])
+    # ownership of raw buffers: MemBlock.tla's reset / reuse / move / view histories on TbfMemoryBlock under AddressSanitizer (leaks included)
+    memblock_stage(run, "C15", only_sanitizer=True)
     # deep trees (indices of 40-62 bits): index arithmetic, level-dependent shifts and powers on the sanitizer build (GridDeep.tla's sampled cells)
     with ThreadPoolExecutor(max_workers=3) as ex:
         list(ex.map(lambda d: grid_deep(run, *d, variant="asan"), [(1, 40, False, 1), (1, 62, False, 1), (2, 30, False, 2), (3, 20, False, 64), (1, 45, True, 1)] if small else
